@@ -20,12 +20,12 @@ from ..model import M, other
 
 LEVEL = 'model_checking'
 RULE = ('tables {2x3, 3x2, 3x3 (+4x2, 2x4 thorough)} x 2 layouts x axis x every labelling of the axis over '
-        '{A,B,None,[A,x]} x 4 labelling forms x partition flags (remove_empty x ignore_none) and collapse '
+        '{A,B,None,[A,x],0,\'\'} x 4 labelling forms x partition flags (remove_empty x ignore_none) and collapse '
         'flags (norm x min_group_size x include_collapsed_metadata); one-to-many: every assignment of one of '
         'the 15 pathway sequences (length 0..3 over {A,B}) to each vector x {add,divide} x axis; non-trivial '
         '= at least two distinct labels in use; distinct by (table, axis, labelling, form)')
 
-LABELS = ['A', 'B', None, ['A', 'x']]
+LABELS = ['A', 'B', None, ['A', 'x'], 0, '']      # incl. falsy labels that are not None
 PATHS = [()] + [p for k in (1, 2, 3) for p in itertools.product('AB', repeat=k)]   # 15 sequences
 
 
@@ -101,7 +101,7 @@ def check(case, acc, tmp):
     def fresh(x):
         return list(x) if isinstance(x, list) else x
     forms = {'by_id': lambda i, md: fresh(L[i]), 'by_md': lambda i, md: fresh(labs[md['slot']])}
-    strlabs = all(isinstance(x, str) or x is None for x in labs)
+    strlabs = all((isinstance(x, str) and x != '') or x is None for x in labs)
     if strlabs and any(x is not None for x in labs):
         d_c = {i: L[i] for i in ids if L[i] is not None}
         forms['dict_id_to_label'] = d_c
@@ -156,7 +156,13 @@ def check(case, acc, tmp):
                         acc.count('clause:partition')
                         acc.count('form:' + fname)
     # ------------------------------------------------------------------ collapse (one-to-one)
-    L2 = {i: ('N' if L[i] is None else ('A|x' if isinstance(L[i], list) else L[i])) for i in ids}
+    def aslabel(x):
+        if x is None:
+            return 'N'
+        if isinstance(x, list):
+            return 'A|x'
+        return {0: 'zero', '': 'empty'}.get(x, x) if not isinstance(x, str) or x == '' else x
+    L2 = {i: aslabel(L[i]) for i in ids}
     cforms = {'by_id': lambda i, md: L2[i], 'by_md': lambda i, md: L2[ids[md['slot']]]}
     for fname, f in cforms.items():
         for norm in (False, True):
